@@ -13,6 +13,7 @@ inductive Ev where
   | mayFail (what : String)
   | write (fields : List String)
   | writeUnlocked (fields : List String)   -- assignment outside any write-lock section (never expected)
+  | touchUnlocked (fields : List String)   -- a live field read or handed to a callee outside any lock section (never expected)
 deriving Repr, DecidableEq, Inhabited
 
 abbrev Ver := Nat
@@ -27,6 +28,7 @@ def Ev.fields : Ev → List String
   | .mayFail _ => []
   | .write fs => fs
   | .writeUnlocked fs => fs
+  | .touchUnlocked _ => []
 
 def setFields (l : Live) (fs : List String) (v : Ver) : Live :=
   l.map fun p => if fs.contains p.1 then (p.1, v) else p
@@ -54,10 +56,12 @@ def failsFirst : List Ev → Bool
 def writes (evs : List Ev) : List (List String) := evs.filterMap fun
   | .write fs => some fs
   | .writeUnlocked fs => some fs
+  | .touchUnlocked _ => none
   | .mayFail _ => none
 
 def hasUnlocked (evs : List Ev) : Bool := evs.any fun
   | .writeUnlocked _ => true
+  | .touchUnlocked _ => true
   | _ => false
 
 /-- the live states other goroutines can observe during a successful attempt: before it, and after each write section -/
